@@ -1,4 +1,5 @@
 import AiutiVerif.Bridge.Model
+import AiutiVerif.Bridge.Close
 /-!
 # C16 — the iterator bridges preserve the sequence and propagate errors (property theorems)
 
